@@ -356,6 +356,54 @@ fn exec(m: &M, op: &COp, pin: bool, yielded: &mut Vec<(u32, u64, u32)>, closure_
     }
 }
 
+/// every tree bin reachable from the table whose lock word has no WRITER bit: the set of nodes
+/// reachable from `root` equals the set of nodes on the `first`/`next` list
+fn tree_list_probe(map: &M, ev: &TraceEv) -> Vec<String> {
+    use flurry::verif_inspect::BinSnap;
+    let g = map.guard();
+    let snap = map.verif_snapshot(&g);
+    let mut out = vec![];
+    let mut cur = snap.table.as_ref();
+    let mut depth = 0;
+    while let Some(t) = cur {
+        for (i, b) in t.bins.iter().enumerate() {
+            if let BinSnap::Tree { root, nodes, lock_state, .. } = b {
+                if *lock_state & 1 != 0 {
+                    continue; // a writer holds the tree's write lock: the two may differ
+                }
+                let by_addr: std::collections::HashMap<usize, _> = nodes.iter().map(|n| (n.node.addr, n)).collect();
+                let mut in_tree: std::collections::BTreeSet<u32> = Default::default();
+                let mut stack = vec![*root];
+                let mut seen = 0usize;
+                while let Some(a) = stack.pop() {
+                    if a == 0 || seen > 4096 {
+                        continue;
+                    }
+                    seen += 1;
+                    match by_addr.get(&a) {
+                        Some(n) => {
+                            in_tree.insert(n.node.key.id);
+                            stack.push(n.left);
+                            stack.push(n.right);
+                        }
+                        None => out.push(format!("[tree-list] bin {} of table {} (lock_state {}): the tree links reach a node {:x} that is not on the traversal list (after {}:{})", i, depth, lock_state, a, ev.file, ev.line)),
+                    }
+                }
+                let on_list: std::collections::BTreeSet<u32> = nodes.iter().map(|n| n.node.key.id).collect();
+                if in_tree != on_list && out.is_empty() {
+                    out.push(format!(
+                        "[tree-list] bin {} of table {}: nobody holds the tree's write lock (lock_state {}), yet the tree holds keys {:?} and the traversal list keys {:?} (after the lock_state store at {}:{})",
+                        i, depth, lock_state, in_tree, on_list, ev.file, ev.line
+                    ));
+                }
+            }
+        }
+        cur = t.forward.as_deref();
+        depth += 1;
+    }
+    out
+}
+
 pub fn run_conc(case: &ConcCase, record_all: bool, budget: usize) -> ConcResult {
     CALL_CLOCK.store(0, std::sync::atomic::Ordering::SeqCst);
     let th = TableHasher { table: Arc::new(case.hashes.clone()) };
@@ -374,6 +422,20 @@ pub fn run_conc(case: &ConcCase, record_all: bool, budget: usize) -> ConcResult 
             map.insert(K::new(*k, *o), V::new(*v, *o), &g);
         }
     }
+    {
+        // the tree bins present at the start (trigger of the Solo policy with after_store = Some(0))
+        let g = map.guard();
+        let sn = map.verif_snapshot(&g);
+        let mut addrs = vec![];
+        if let Some(t) = &sn.table {
+            for b in &t.bins {
+                if let flurry::verif_inspect::BinSnap::Tree { addr, .. } = b {
+                    addrs.push(*addr);
+                }
+            }
+        }
+        *SOLO_TRIGGER_ADDRS.lock().unwrap() = addrs;
+    }
     let field_addrs = map.verif_field_addrs();
     let (ctl_nstart, ctl_sc0, ctl_ti0) = {
         let g = map.guard();
@@ -382,6 +444,12 @@ pub fn run_conc(case: &ConcCase, record_all: bool, budget: usize) -> ConcResult 
     };
     let n = case.programs.len();
     let s = Sched::new(n, record_all);
+    {
+        // C06 / C01: whenever a tree bin's write lock has just been released, its tree and its
+        // traversal list hold the same nodes (`Proto/BinU`: `tree_eq_list_unlocked`)
+        let mp = map.clone();
+        *MID_PROBE.lock().unwrap() = Some(Box::new(move |ev: &TraceEv| tree_list_probe(&mp, ev)));
+    }
     let calls: Arc<std::sync::Mutex<Vec<Call>>> = Arc::new(std::sync::Mutex::new(vec![]));
     let mut handles = vec![];
     for (tid, prog) in case.programs.iter().cloned().enumerate() {
@@ -413,6 +481,7 @@ pub fn run_conc(case: &ConcCase, record_all: bool, budget: usize) -> ConcResult 
     }
     let mut rng = Rng(case.seed ^ 0x5EED);
     let outcome = drive(&s, &case.policy, &mut rng, budget);
+    *MID_PROBE.lock().unwrap() = None;
     let mut panicked = vec![];
     if !outcome.deadlock && !outcome.budget_exceeded {
         for h in handles {
@@ -473,6 +542,9 @@ pub fn run_conc(case: &ConcCase, record_all: bool, budget: usize) -> ConcResult 
     }
     let calls = calls.lock().unwrap().clone();
     let mut life_failures = vec![];
+    let mut probe_msgs: Vec<String> = notes.iter().filter(|n| n.starts_with("[tree-list]")).cloned().collect();
+    probe_msgs.dedup();
+    wf.extend(probe_msgs.into_iter().take(3));
     crate::life::set_current_map(None);
     let stuck = outcome.deadlock || outcome.budget_exceeded;
     if !stuck && record_all {
@@ -819,7 +891,7 @@ pub fn judge(case: &ConcCase, r: &ConcResult) -> Verdicts {
     // creation and the yield; that read must fit into the same sequential order as every other
     // operation on k (a later `get` that misses a key an iterator already showed does not)
     for c in &r.calls {
-        if matches!(c.op, COp::Iter) {
+        if matches!(c.op, COp::Iter | COp::FrozenIter) {
             for (i, y) in c.yielded.iter().enumerate() {
                 let at = c.yield_at.get(i).copied().unwrap_or(c.resp);
                 all_calls.push(Call { op: COp::Yielded(y.0), result: format!("some {} {}", y.1, y.2), resp: at, yielded: vec![], yield_at: vec![], ..c.clone() });
@@ -876,7 +948,7 @@ pub fn judge(case: &ConcCase, r: &ConcResult) -> Verdicts {
             }
         }
         // C07: weak consistency of every completed iteration
-        for it in r.calls.iter().filter(|c| matches!(c.op, COp::Iter)) {
+        for it in r.calls.iter().filter(|c| matches!(c.op, COp::Iter | COp::FrozenIter)) {
             for k in &keys {
                 let mut cs: Vec<&Call> = r_calls.iter().filter(|c| c.op.key() == Some(*k)).collect();
                 cs.sort_by_key(|c| (c.inv, c.tid));
@@ -963,7 +1035,11 @@ pub fn judge(case: &ConcCase, r: &ConcResult) -> Verdicts {
         }
     }
     for w in &r.wf {
-        f.push(format!("[quiescent] {}", w));
+        if w.starts_with('[') {
+            f.push(w.clone()); // a mid-run probe's diagnosis carries its own tag
+        } else {
+            f.push(format!("[quiescent] {}", w));
+        }
     }
     Verdicts { failures: f, keys_checked, witnesses, lin_lines }
 }
@@ -1029,6 +1105,7 @@ pub fn gen_conc_mode(id: usize, seed: u64, tier_big: bool, mode: &str) -> ConcCa
         programs.push(p);
     }
     let mut solo_freeze: Vec<(usize, usize)> = vec![];
+    let mut treecase_fi = false;
     let (programs, cap, prefill, hashes, class) = match mode {
         "iter" => {
             // one case in three: a tree bin (all-equal hashes, 128 bins, 9..12 keys), so that the
@@ -1113,9 +1190,12 @@ pub fn gen_conc_mode(id: usize, seed: u64, tier_big: bool, mode: &str) -> ConcCa
             // thread 0 dumps the chain of tables and iterates while every other thread is suspended
             // somewhere inside its operations (typically in the middle of a resize): the yield
             // order must be exactly what the Lean traverser produces on the dumped chain
-            let hc = *rng.pick(&["ident", "uniform", "alternate", "fewbins", "split64", "zero"]);
+            // one case in four: a 64-bin table whose crowded bin is a tree bin that the resize splits
+            let treecase = rng.chance(1, 4);
+            treecase_fi = treecase;
+            let hc = if treecase { *rng.pick(&["split64", "zero", "split64"]) } else { *rng.pick(&["ident", "uniform", "alternate", "fewbins", "split64", "zero"]) };
             let hashes = crate::gen::gen_hashes(&mut rng, hc, 120);
-            let cap = *rng.pick(&[0usize, 1, 2, 5, 10, 21, 42]);
+            let cap = if treecase { 42 } else { *rng.pick(&[0usize, 1, 2, 5, 10, 21, 42]) };
             let tl = if cap == 0 { 16 } else { (cap + cap / 2 + 1).next_power_of_two() };
             let pre = (tl - tl / 4).saturating_sub(1 + rng.below(4) as usize).min(60);
             let prefill: Vec<(u32, u64, u32)> = (0..pre).map(|i| ((i + 1) as u32, rng.below(5), fresh())).collect();
@@ -1339,7 +1419,7 @@ pub fn gen_conc_mode(id: usize, seed: u64, tier_big: bool, mode: &str) -> ConcCa
                     let k = 1 + rng.below(pre as u64) as u32;
                     programs.push(vec![match rng.below(4) { 0 | 1 => COp::Rm(k), 2 => COp::Ins(pre as u32 + 1 + rng.below(4) as u32, 1, fresh()), _ => COp::CipRm(k) }]);
                 }
-                let policy = Policy::Solo { reader: 0, start: 0, after: usize::MAX / 2, freeze: vec![(1usize, 5 + rng.below(14) as usize)] };
+                let policy = Policy::Solo { reader: 0, start: 0, after: usize::MAX / 2, freeze: vec![(1usize, 5 + rng.below(14) as usize)], after_store: None };
                 return ConcCase { id, seed, hash_class: "solo", hashes, cap: 64, prefill, programs, policy, pin: rng.chance(1, 3) };
             }
             let hc = if shape == 0 { "zero" } else { *rng.pick(&["ident", "fewbins", "alternate"]) };
@@ -1403,11 +1483,15 @@ pub fn gen_conc_mode(id: usize, seed: u64, tier_big: bool, mode: &str) -> ConcCa
     };
     let policy = if mode == "frozeniter" {
         // the reader does not run before it runs alone
-        Policy::Solo { reader: 0, start: 0, after: if rng.chance(1, 6) { usize::MAX / 2 } else { rng.below(1500) as usize }, freeze: vec![] }
+        // half of the cases: the others are stopped right after one of their stores to a bin cell or
+        // a `next` link (between two consecutive stores of a transfer / insert / removal)
+        let after_store = if treecase_fi && rng.chance(2, 3) { Some(0) } else if rng.chance(1, 2) { Some(1 + rng.below(30) as usize) } else { None };
+        Policy::Solo { reader: 0, start: 0, after: if rng.chance(1, 6) { usize::MAX / 2 } else { rng.below(1500) as usize }, freeze: vec![], after_store }
     } else if mode == "solo" { {
         let start = if rng.chance(1, 2) { 0 } else { 1 + rng.below(40) as usize };
         let after = if rng.chance(1, 3) { usize::MAX / 2 } else { start + rng.below(400) as usize };
-        Policy::Solo { reader: 0, start, after, freeze: solo_freeze.clone() }
+        let after_store = if rng.chance(1, 3) { Some(1 + rng.below(40) as usize) } else { None };
+        Policy::Solo { reader: 0, start, after, freeze: solo_freeze.clone(), after_store }
     } } else { policy };
     ConcCase { id, seed, hash_class: class, hashes, cap, prefill, programs, policy, pin: rng.chance(1, 3) }
 }
